@@ -1,5 +1,5 @@
 (* C16 — LastDebugErr tells exactly when a reached comparison could not be decided. *)
-From Rules Require Import Spec Eval Refinement SemProps SemLaws Theorems OpsProps UndecidedProofs.
+From Rules Require Import Spec Eval Refinement SemProps SemLaws Theorems OpsProps UndecidedProofs NestedError NestedErrorProofs.
 
 Theorem C16_iff :
   forall lower top q, wf_query q -> sem lower top q None <> SPanic ->
@@ -21,6 +21,14 @@ Theorem C16_leaf_iff_undecided :
   forall lower t op l r b e, op_apply lower t op l r = Ok (b, e) -> (e <> None <-> undecided t op l r = true).
 Proof. exact diagnostic_iff_undecided. Qed.
 Print Assumptions C16_leaf_iff_undecided.
+
+(* a diagnostic is a NestedError with at least one layer: in the model of NestedError its
+   Error() text is never empty (an object starts with '{', the fallback contains ": "),
+   whatever values are attached and however deep the chain; that fmt / encoding/json do not
+   panic on the attached Go values is sampled, not modelled *)
+Theorem C16_error_text_nonempty : forall cause l inner, fst (error_layers cause (l :: inner)) <> [].
+Proof. exact error_text_nonempty. Qed.
+Print Assumptions C16_error_text_nonempty.
 
 (* `x le 1.5` on {x:"s"} leaves a diagnostic, like `x lt 1.5` *)
 Example C16_example :
